@@ -11,7 +11,7 @@ from pycaption import CaptionSet, CaptionList, Caption, CaptionNode
 from pycaption.geometry import (Layout, Point, Size, Stretch, Padding, Alignment, UnitEnum, HorizontalAlignmentEnum,
                                 VerticalAlignmentEnum)
 
-LAYOUT_NAMES = ["rel_fit", "rel_noext", "rel_over", "abs", "align", "pad", "vtt", "empty"]
+LAYOUT_NAMES = ["rel_fit", "rel_noext", "rel_over", "abs", "abs_em", "abs_pt", "abs_c", "align", "pad", "vtt", "empty"]
 
 
 def P(v):
@@ -33,6 +33,15 @@ def make_layout(name):
         return Layout(origin=Point(P(50), P(60)), extent=Stretch(P(80), P(80)))
     if name == "abs":
         return Layout(origin=Point(PX(64), PX(36)), extent=Stretch(PX(320), PX(180)))
+    if name == "abs_em":
+        return Layout(origin=Point(Size(2, UnitEnum.EM), Size(1, UnitEnum.EM)),
+                      extent=Stretch(Size(20, UnitEnum.EM), Size(4, UnitEnum.EM)))
+    if name == "abs_pt":
+        return Layout(origin=Point(Size(36, UnitEnum.PT), Size(18, UnitEnum.PT)),
+                      extent=Stretch(Size(240, UnitEnum.PT), Size(72, UnitEnum.PT)))
+    if name == "abs_c":
+        return Layout(origin=Point(Size(4, UnitEnum.CELL), Size(2, UnitEnum.CELL)),
+                      extent=Stretch(Size(20, UnitEnum.CELL), Size(5, UnitEnum.CELL)))
     if name == "align":
         return Layout(alignment=Alignment(HorizontalAlignmentEnum.CENTER, VerticalAlignmentEnum.BOTTOM))
     if name == "pad":
